@@ -371,6 +371,8 @@ def op_linear(P):
     if kind in ('imul', 'idiv', 'iscale_prefactor'):
         if isinstance(sc, complex) and a.dense.dtype.kind != 'c':
             sc = sc.real
+            if kind == 'idiv' and sc == 0:
+                sc = 2.0  # (the real part of the drawn scalar can vanish: dividing by it would be an illegal call)
         if a.dense.dtype.kind in 'iu':
             sc = int(sc) if kind != 'idiv' else sc
         if kind == 'idiv':
